@@ -299,6 +299,8 @@ class Model(ABC):
                     "vectorisation will be disabled."
                 )
                 self.allow_vectorised = False
+                if self.parallelise_prior:
+                    self.allow_vectorised_prior = False
             elif n_pool:
                 self.n_pool = n_pool
                 logger.debug(f"User pool has {n_pool} processes")
